@@ -105,6 +105,7 @@ MUTANTS = [
     {"name": "revert-d0198aa-excluded-dependencies", "revert": "d0198aa", "props": ["C11"]},
     {"name": "revert-27a9820-discriminator-policy", "revert": "27a9820", "props": ["C11"]},
     {"name": "revert-4f4d486-discriminator-spelling", "revert": "4f4d486", "props": ["C05", "C11"]},
+    {"name": "revert-6e97455-enum-equal-value", "revert": "6e97455", "props": ["C12"]},
     {"name": "revert-4920ecc-reserve-by-keyword", "revert": "4920ecc", "props": ["C08"]},
     {"name": "revert-318e81e-params-count", "revert": "318e81e", "props": ["C08"]},
     {"name": "revert-654b870-positional-dependencies", "revert": "654b870", "props": ["C08"]},
